@@ -832,6 +832,12 @@ def same_series(repo, cls, fn, defcls):
 # ====================================================================================== R4
 
 
+class AbsOfSigned(Exception):
+    def __init__(self, lin):
+        Exception.__init__(self, "abs of a signed quantity")
+        self.lin = lin
+
+
 class Cong:
     """value known modulo ``mod`` (canonical string of the modulus expression) as an affine form"""
 
@@ -924,6 +930,11 @@ def check_alignment(ctx, repo):
             d = ext(e.func)
             if d == "builtins.int" or (isinstance(e.func, ast.Name) and e.func.id == "int" and len(e.args) == 1):
                 return ev(e.args[0])
+            if (d in ("numpy.abs", "numpy.absolute", "numpy.fabs") or (isinstance(e.func, ast.Name) and e.func.id == "abs")) and len(e.args) == 1:
+                inner_ = ev(e.args[0])
+                if inner_.lin.is_const():
+                    return Cong(Lin.c(abs(inner_.lin.const)), inner_.mod)
+                raise AbsOfSigned(inner_.lin)
             sym = repo.resolve_expr(mod, e.func)
             if sym is not None and sym.kind == "func" and sym.dotted == "sktime.utils.datetime._get_duration":
                 b = astq.bind_call(sym.target, e)
@@ -947,6 +958,13 @@ def check_alignment(ctx, repo):
 
     try:
         s = ev(shift)
+    except AbsOfSigned as e:
+        ctx.violation("R4", tag + ":shift",
+                      "%s takes the absolute value of the signed offset %r: the offset is negative whenever the transformed series starts before "
+                      "the phase reference (an earlier or overlapping stretch, or any series after `update` moved the reference forward); then "
+                      "|d| == -d and the shift has the wrong sign. Witness d = -1: shift = (-1) mod sp = sp - 1, required (+1) mod sp = 1 "
+                      "(equal only if sp divides 2)" % (tag, e.lin), loc, witness={"offset": repr(e.lin), "d": -1, "shift": "sp - 1", "required": 1})
+        return
     except Undecided as e:
         ctx.undecided("R4", tag + ":shift", "shift `%s` not interpretable: %s" % (ast.unparse(shift)[:80], e), loc)
         return
@@ -1069,6 +1087,7 @@ def duration_semantics(repo, fn, x_expr=None, y_expr=None):
 
 # ====================================================================================== R5
 
+LABEL_METHODS = {"first_valid_index", "last_valid_index", "idxmax", "idxmin"}
 POS_CALLS = {"builtins.range", "numpy.arange", "numpy.flatnonzero", "numpy.argwhere", "numpy.nonzero", "numpy.argsort", "numpy.argmax",
              "numpy.argmin", "numpy.nanargmax", "numpy.nanargmin", "numpy.searchsorted"}
 
@@ -1145,6 +1164,8 @@ class PosLabel:
             d = self.ext(v.func)
             if d in POS_CALLS:
                 return "pos"
+            if isinstance(v.func, ast.Attribute) and v.func.attr in LABEL_METHODS and self.is_data(v.func.value):
+                return "label"
             if d in ("builtins.len", "builtins.int") and v.args and d == "builtins.int":
                 return self.kind(v.args[0])
             return None
@@ -1231,9 +1252,16 @@ def check_positions(ctx, repo):
                         continue
                     idx = node.slice
                     parts = idx.elts if isinstance(idx, ast.Tuple) else [idx]
+                    is_slice = False
+                    if isinstance(idx, ast.Slice):
+                        # s[a:b] through plain [] is *positional* for integer bounds, s.loc[a:b] is by label
+                        parts = [b_ for b_ in (idx.lower, idx.upper) if b_ is not None]
+                        is_slice = True
                     kinds = {pl.kind(p_) for p_ in parts} - {None}
                     if not kinds:
                         continue
+                    if is_slice and via == "[]":
+                        via = "[:]"
                     sv = series
                     while isinstance(sv, ast.Call) and sv.args:
                         sv = sv.args[0]
@@ -1250,13 +1278,16 @@ def check_positions(ctx, repo):
             where = "; ".join("`%s` (%s)" % (t, w) for w, t, _ in sites)
             loc = sites[0][0].split(" in ")[0]
             kind, via = access.split("-through-")
-            positional = via in ("iloc", "iat")
+            positional = via in ("iloc", "iat", "[:]")
             if kind == "positions" and not positional:
                 ctx.violation("R5", key2, "%s: integer positions are used as *labels* on the user's series `%s`: %s. With an integer index that "
                               "does not start at 0 this selects other rows or raises KeyError; positions must go through .iloc / numpy"
                               % (entry, param, where), loc, witness={"sites": where})
             elif kind == "labels" and positional:
-                ctx.violation("R5", key2, "%s: labels are used as positions on the user's series `%s`: %s" % (entry, param, where), loc)
+                ctx.violation("R5", key2, "%s: labels are used as positions on the user's series `%s`: %s%s" % (
+                    entry, param, where, ". A plain `s[a:]` slice with an integer bound is positional: with an integer index that does not start at 0 "
+                    "(e.g. RangeIndex(100, 200), first valid label 103) it cuts at position 103 instead of label 103; use .loc[a:]" if via == "[:]" else ""),
+                    loc, witness={"sites": where})
             else:
                 ctx.ok("R5", key2, "%d access(es): %s" % (len(sites), where[:200]), loc)
     return n
